@@ -10,6 +10,7 @@ PATTERNS = ["*.tmp", "a?", "[ab]*", "Sound/", "notes", "*.txt", "Clips", "d.tmp"
 def scenario(rng, i):
     tree = gen.gen_tree(rng, max_entries=14, ds_store=True)
     cur = copy.deepcopy(tree)
+    PATTERNS = globals()["PATTERNS"] + gen.path_patterns(tree, rng, k=3)
     steps = []
     dirs = gen.all_dirs(cur)
     for d in rng.sample(dirs, min(len(dirs), rng.choice([0, 0, 1, 2]))):
